@@ -102,6 +102,7 @@ def _cases(draw, tier):
                 case[key] = (case[key] - T0 * 1000) * case["F"] // 1000 + T0 * 1000 + draw(st.sampled_from([0, 0, 250, 500, 750, 1, 249]))
     case["ctor"] = draw(st.sampled_from(["api", "api", "cli"]))
     case["linkflag"] = case["method"] == "copy" and draw(st.booleans())
+    case["verbose"] = draw(st.booleans())  # progress reports on stdout: must not change what is mirrored
     return case
 
 
@@ -124,6 +125,9 @@ def directed_cases(tier):
                 out.append({"chans": [{"nfiles": 6, "gap_at": 3, "nmd": 3}], "steps": [dict(s_) for s_ in steps], "method": method,
                             "xdev": False, "include_drf": True, "include_dmd": True, "start": start, "end": end, "fault": None,
                             "naive": naive})
+        # the real observer threads (see run_live)
+        for sc in LIVE_SCENARIOS:
+            out.append({"live": sc, "method": method, "verbose": method == "move"})
         # 250 ms files, window edges at T0 + 0.2 s and T0 + 1.1 s
         out.append({"chans": [{"nfiles": 6, "gap_at": 3, "nmd": 3}], "steps": [dict(s_) for s_ in steps], "method": method,
                     "xdev": False, "include_drf": True, "include_dmd": True, "start": T0 * 1000 + 200, "end": T0 * 1000 + 1100, "fault": None,
@@ -286,7 +290,113 @@ def wrapped(world):
         shutil.copyfile = real["copyfile"]
 
 
+LIVE_SCENARIOS = ["existing-then-live", "late-root", "root-replaced"]
+
+
+def run_live(case):
+    """The mirror with its real observer threads (DirWatcher + watchdog): see vlib/live.py for how verdicts are taken."""
+    import threading  # noqa: F401
+    from digital_rf import mirror
+    from vlib import live
+
+    res = Result()
+    res.nontrivial = True
+    res.cls("live:" + case["live"])
+    res.cls("method:" + case["method"])
+    cfg = rf_cfg(0)
+    with rfharness.scratch("c17l") as base:
+        stage = os.path.join(base, "stage")
+        ops = [{"op": "w", "idx": 0, "len": 270}, {"op": "w", "idx": 310, "len": 220}]
+        with rfharness.quiet_fds():
+            rfharness.run_python(cfg, ops, os.path.join(stage, "ch0"))
+            os.makedirs(os.path.join(stage, "ch0", "metadata"), exist_ok=True)
+            mdw = rfharness.drf().DigitalMetadataWriter(os.path.join(stage, "ch0", "metadata"), 10, 2, 100, 1, "metadata")
+            for j in range(3):
+                mdw.write(cfg["start"] + j * 170, {"j": j})
+        staged = live.files_under(stage)
+        rf = sorted(r for r in staged if os.path.basename(r).startswith("rf@"))
+        other = sorted(r for r in staged if r not in rf)
+        src = os.path.join(base, "data", "src")
+        dest = os.path.join(base, "out")
+        os.makedirs(os.path.join(base, "data"))
+        os.makedirs(os.path.join(base, "area"))
+        os.makedirs(dest)
+
+        def put(rel, root):
+            if rel in rf:
+                live.publish(staged[rel], os.path.join(root, rel))
+            else:
+                os.makedirs(os.path.dirname(os.path.join(root, rel)), exist_ok=True)
+                shutil.copyfile(staged[rel], os.path.join(root, rel))
+
+        expected = set(rf + other)
+        if case["live"] != "late-root":
+            for rel in other + rf[:2]:
+                put(rel, src)
+        out = io.StringIO()
+        with contextlib.redirect_stdout(out):
+            mir = mirror.DigitalRFMirror(src, dest, method=case["method"], verbose=bool(case.get("verbose")))
+            mir.start()
+        try:
+            with contextlib.redirect_stdout(out):
+                if case["live"] == "existing-then-live":
+                    for rel in rf[2:]:
+                        put(rel, src)
+                elif case["live"] == "late-root":
+                    # the source directory does not exist when the mirror starts; it arrives complete (moved into place
+                    # from another parent directory)
+                    tmp_root = os.path.join(base, "area", "incoming")
+                    for rel in other + rf:
+                        put(rel, tmp_root)
+                    time_sleep(0.3)
+                    os.rename(tmp_root, src)
+                else:
+                    # the source is taken away and a fuller one is moved into its place
+                    live.wait_for(lambda: all(os.path.exists(os.path.join(dest, r)) for r in other + rf[:2]), 10)
+                    shutil.rmtree(src)  # (deleted - a directory that is MOVED away is something DirWatcher does not follow)
+                    time_sleep(0.5)
+                    tmp_root = os.path.join(base, "area", "incoming")
+                    for rel in other + rf:
+                        put(rel, tmp_root)
+                    os.rename(tmp_root, src)
+
+                def complete():
+                    return all(live.same_bytes(staged[r], os.path.join(dest, r)) for r in expected)
+
+                if not live.wait_for(complete, 15):
+                    # is the pipeline alive?  one more file, published after everything else
+                    sent_rel = os.path.join(os.path.dirname(rf[-1]), "rf@%d.000.h5" % (T0 + 50))
+                    live.publish(staged[rf[-1]], os.path.join(src, sent_rel))
+                    if live.wait_for(lambda: os.path.exists(os.path.join(dest, sent_rel)), 15):
+                        time_sleep(1.0)
+                        if not complete():
+                            missing = sorted(r for r in expected if not live.same_bytes(staged[r], os.path.join(dest, r)))
+                            res.fail("live-dest-missing:%s:%s" % (case["live"], case["method"]),
+                                     "%d of %d files never arrived although a file published later did: %s" % (len(missing), len(expected), missing[:3]))
+                    else:
+                        res.cls("live-inconclusive")
+                tmpleft = [r for r in live.files_under(dest) if os.path.basename(r).startswith("tmp.")]
+                if tmpleft and not res.failures:
+                    res.fail("live-tmp-leftover:%s:%s" % (case["live"], case["method"]), "%s" % sorted(tmpleft)[:3])
+        finally:
+            with contextlib.redirect_stdout(out):
+                try:
+                    mir.stop()
+                    mir.observer.join(5)
+                except Exception:
+                    pass
+        res.evaluations = len(expected)
+    return res
+
+
+def time_sleep(s):
+    import time
+    time.sleep(s)
+
+
 def run_case(case):
+    if case.get("live"):
+        return run_live(case)
     res = Result()
     from watchdog import events as ev
 
@@ -368,6 +478,8 @@ def _run(case, res, base, stage, src, dest, ev, drf, list_drf, mirror):
                     argv.append("--nodmd")
                 if case.get("linkflag"):
                     argv.append("--link")
+                if case.get("verbose"):
+                    argv.append("-v")
                 got_ = []
                 real_run = mirror.DigitalRFMirror.run
                 mirror.DigitalRFMirror.run = lambda self_: got_.append(self_)
@@ -379,7 +491,7 @@ def _run(case, res, base, stage, src, dest, ev, drf, list_drf, mirror):
             else:
                 mir = mirror.DigitalRFMirror(src, dest, method=case["method"], starttime=start, endtime=end,
                                              include_drf=case["include_drf"], include_dmd=case["include_dmd"],
-                                             **({"link": True} if case.get("linkflag") else {}))
+                                             verbose=bool(case.get("verbose")), **({"link": True} if case.get("linkflag") else {}))
         handlers = mir.event_handlers
         processed = set()  # relpaths whose (latest) events reached the mirror
         history = []  # final-name relpaths reported so far
